@@ -24,11 +24,12 @@ func finishFamily(fam *Family, pkg string, body string) {
 func genC05(tier string, seed int64) (*Family, error) {
 	pkg := "c05"
 	fam := &Family{
-		Prop:    "C05",
-		PkgPath: modPath + "/zz_verif/" + pkg,
-		Files:   map[string]string{},
-		Bounds:  map[string]interface{}{},
-		Cfg:     interp.Config{MaxSteps: 3_000_000, TrackAllocs: []string{"eMsg"}, TrackFields: []string{"engine.Gengine.returnResult"}},
+		Prop:       "C05",
+		BothOrders: true,
+		PkgPath:    modPath + "/zz_verif/" + pkg,
+		Files:      map[string]string{},
+		Bounds:     map[string]interface{}{},
+		Cfg:        interp.Config{MaxSteps: 3_000_000, TrackAllocs: []string{"eMsg"}, TrackFields: []string{"engine.Gengine.returnResult"}},
 		Functions: []string{"engine.Gengine).ExecuteMixModel", "engine.Gengine).ExecuteInverseMixModel", "engine.Gengine).ExecuteNSortMConcurrent",
 			"engine.Gengine).ExecuteNConcurrentMSort", "engine.Gengine).ExecuteNConcurrentMConcurrent", "engine.Gengine).ExecuteSelectedRulesMixModel", "engine.Gengine).ExecuteSelectedRulesInverseMixModel", "engine.Gengine).ExecuteSelectedNSortMConcurrent"},
 	}
